@@ -111,6 +111,9 @@ TEXTS = ["", " ", "\n", "  \n ", "a", " a", "a ", " a b ", "a\nb", "\n a \n b \n
 PRE_TEXTS = ["  x  ", "\n  indented\n    more\n", " ", "\n", "a\n\n\nb", "\t", "k", "  ", "\n\n", " \xa0 ", "x\n"]
 ATTRS = ['class="a b"', "id=x", 'title="q &amp; r"', 'data-x=" sp "', "disabled", 'alt="two\nlines"', 'class=" c "',
          "href='u?a=1&amp;b=2'", 'data-q="&quot;"', "rel='x y'"]
+METAS = ['<meta charset="iso-8859-1">', '<meta http-equiv="Content-Type" content="text/html; charset=koi8-r">',
+         '<meta content="text/html; charset=x-sjis" http-equiv="content-type" charset="big5">', '<meta charset="utf-8"/>',
+         '<meta name="x" content="charset=nope">', "<meta charset=''>", '<META HTTP-EQUIV="content-type" CONTENT="text/html;CHARSET=EUC-JP">']
 SPECIALS = ["<!-- c -->", "<!---->", "<!--\n multi\n line \n-->", "<![CDATA[ x ]]>", "<![CDATA[]]>", "<?php x ?>",
             "<!ELEMENT br EMPTY>", "<!--  -->", "<?pi?>"]
 
@@ -133,6 +136,8 @@ def gen_nodes(r, depth, inpre, budget):
             out.append(r.choice(PRE_TEXTS if inpre and r.random() < 0.7 else TEXTS))
         elif x < 0.38:
             out.append(r.choice(SPECIALS))
+        elif x < 0.40:
+            out.append(r.choice(METAS))
         elif x < 0.46:
             out.append("<" + r.choice(VOID) + gen_attrs(r) + r.choice(["", "", "/", " /"]) + ">")
         elif x < 0.50 and not inpre:
@@ -158,7 +163,10 @@ def gen_html(r):
     body = "".join(gen_nodes(r, 0, False, budget))
     x = r.random()
     if x < 0.15:
-        return "<!DOCTYPE html>" + r.choice(["", "\n"]) + "<html><head><title> t </title></head><body>" + body + "</body></html>"
+        return ("<!DOCTYPE html>" + r.choice(["", "\n"]) + "<html><head>" + r.choice(METAS + [""]) + "<title> t </title>"
+                + r.choice(["", ""] + METAS) + "</head><body>" + body + "</body></html>")
+    if x < 0.22:
+        return r.choice(METAS) + body
     if x < 0.25:
         return "<!DOCTYPE html>\n" + body
     return body
@@ -470,8 +478,9 @@ INERT_RE = re.compile(r"^(?:[^<&]|&(?:[a-zA-Z][a-zA-Z0-9]*|#[0-9]+|#[xX][0-9a-fA
 class Pieces:
     """opaque pieces of every node of a document under one resolved formatter"""
 
-    def __init__(self, soup, fmt):
+    def __init__(self, soup, fmt, enc="utf-8"):
         Tag = E()["Tag"]
+        self.enc = enc
         self.open, self.close, self.ready = {}, {}, {}
         # inert: no text piece can change html.parser's tokenisation when whitespace is put next to it (no raw '<', every '&'
         # starts a complete character reference) -- the precondition for comparing re-parses at all (garbage in otherwise)
@@ -479,8 +488,8 @@ class Pieces:
         Pre = E()["el"].PreformattedString
         for x in all_nodes(soup):
             if isinstance(x, Tag):
-                self.open[id(x)] = x._format_tag("utf-8", fmt, opening=True)
-                self.close[id(x)] = x._format_tag("utf-8", fmt, opening=False)
+                self.open[id(x)] = x._format_tag(enc, fmt, opening=True)
+                self.close[id(x)] = x._format_tag(enc, fmt, opening=False)
             else:
                 self.ready[id(x)] = x.output_ready(fmt)
                 if not isinstance(x, Pre) and not INERT_RE.match(self.ready[id(x)]):
@@ -503,10 +512,10 @@ def demanded(node, pc: Pieces, fmt, unit, depth, out, flags):
     if preserving(node):
         if node.hidden:
             flags["hidden_pre"] = True
-            out.append(node.decode(formatter=fmt))
+            out.append(E()["Tag"].decode(node, None, pc.enc, fmt))
         else:
             # character for character: the real plain rendering of the element, on a line of its own
-            out.append(unit * max(depth, 0) + node.decode(formatter=fmt) + "\n")
+            out.append(unit * max(depth, 0) + E()["Tag"].decode(node, None, pc.enc, fmt) + "\n")
         return
     if o:
         out.append(unit * max(depth, 0) + o + "\n")
@@ -716,6 +725,7 @@ def check_document_(ctx: Ctx, recipe, stream, r, specs_pool, unit_of_spec, reque
     """runs the real code + oracle on one document, appends model requests; returns nothing"""
     e = E()
     Tag, BS = e["Tag"], e["BeautifulSoup"]
+    n_raw = 5
     try:
         soup, applied = build(recipe)
     except RecursionError:
@@ -851,12 +861,215 @@ def check_document_(ctx: Ctx, recipe, stream, r, specs_pool, unit_of_spec, reque
             requests.append({"kind": "spec", "line": "c14 spec " + head, "real": reals, "recipe": recipe, "formatter": spec,
                              "metas": [(path_of(rv, soup), c) for rv, c in metas], "stream": stream})
             ctx.count("fmt:" + spec[0] + (":" + str(spec[1]) if spec[0] in ("name", "base", "sub") else ""))
+            raw_section(ctx, soup, recipe, stream, r, spec, farg, fmt, unit, grecvs, idmap, requests, n_raw)
             ctx.count("unit:" + ("ws" if unit_ws else "non-ws") + ":" + repr(unit))
     if pc0 is not None:
         pc, sets, toks, unit = pc0
         head = f"{tok(unit)} {sets_token(sets)} {len(ev_queries)} " + " ".join(ev_queries) + " " + " ".join(toks)
         requests.append({"kind": "ev", "line": "c14 ev " + head, "real": ev_real, "recipe": recipe, "formatter": None,
                          "metas": [(q, ["events"]) for q in ev_queries], "stream": stream})
+
+
+# --------------------------------------------------------------------------------------
+# the raw layer: pieces computed by the model; encodings, bytes flavour, XML declaration, soup / void receivers
+# --------------------------------------------------------------------------------------
+ENCODINGS = ["latin-1", "ascii", "koi8-r", "utf-16", "cp1252", "UTF-8", "utf8"]
+PY_SPECIFIC = ["idna", "unicode_escape", "punycode", "undefined"]
+
+
+def enc_tok(e):
+    return "N" if e is None else tok(e)
+
+
+def prop_xml_decl(enc):
+    """the property's reading of the XML declaration line of an XML-flavoured soup (hard-coded, not read from bs4)"""
+    if enc is None or enc in ("idna", "mbcs", "oem", "palmos", "punycode", "raw_unicode_escape", "undefined", "unicode_escape",
+                              "raw-unicode-escape", "unicode-escape", "string-escape", "string_escape"):
+        return '<?xml version="1.0"?>\n'
+    return '<?xml version="1.0" encoding="%s"?>\n' % enc
+
+
+def attr_string(t, piece, vcp):
+    """the attribute_string part of an opening piece (None when the piece is not assembled as `<prefix:name attrs/>`)"""
+    pfx = (t.prefix + ":") if t.prefix else ""
+    head = "<" + pfx + t.name
+    slash = vcp if (not t.contents and t.can_be_empty_element is True) else ""
+    tail = slash + ">"
+    if not piece.startswith(head) or not piece.endswith(tail) or len(piece) < len(head) + len(tail):
+        return None
+    return piece[len(head):len(piece) - len(tail)]
+
+
+def raw_tokens(ctx, soup, fmt, idmap, sets, encs, vcp):
+    """tokens of the whole document for the raw layer; attribute strings per eventual_encoding obtained from the real
+    _format_tag by cutting off `<prefix:name` and `/>`"""
+    e = E()
+    Tag, BS = e["Tag"], e["BeautifulSoup"]
+    toks = []
+    ok = [True]
+
+    def set_index(s):
+        if s is None:
+            return "N"
+        key = tuple(sorted(s))
+        if key not in sets:
+            sets[key] = len(sets)
+        return str(sets[key])
+
+    def go(x):
+        if isinstance(x, Tag):
+            if x.hidden:
+                attrs = "-"
+            else:
+                by = {}
+                for en in ["utf-8"] + encs:
+                    a = attr_string(x, x._format_tag(en, fmt, opening=True), vcp)
+                    if a is None:
+                        ok[0] = False
+                        a = ""
+                    by[en] = a
+                attrs = tok(by["utf-8"]) + "".join(f";{enc_tok(en)}={tok(by[en])}" for en in encs if by[en] != by["utf-8"])
+                if ";" in attrs:
+                    ctx.count("raw:tag-with-encoding-dependent-attrs")
+            sx = ("1" if x.is_xml else "0") if isinstance(x, BS) else "N"
+            toks.extend(["T", str(idmap[id(x)]), sx, "1" if x.hidden else "0", tok(x.prefix or ""), tok(x.name), attrs,
+                         set_index(x.preserve_whitespace_tags), "1" if x.can_be_empty_element is True else "0", str(len(x.contents))])
+            for ch in x.contents:
+                go(ch)
+        else:
+            ready = x.output_ready(fmt)
+            pre, suf = type(x).PREFIX, type(x).SUFFIX
+            if not (ready.startswith(pre) and ready.endswith(suf) and len(ready) >= len(pre) + len(suf)):
+                ok[0] = False
+                pre = suf = ""
+            toks.extend(["S", tok(pre), tok(suf), tok(ready[len(pre):len(ready) - len(suf)])])
+    go(soup)
+    return toks, ok[0]
+
+
+def do_raw_call(recv, call, k, enc, farg):
+    """call: d/c/e/ec/p; enc 'D' = argument omitted"""
+    with warnings.catch_warnings():
+        warnings.simplefilter("ignore")
+        if call == "p":
+            return recv.prettify(formatter=farg) if enc == "D" else recv.prettify(enc, farg)
+        if call == "d":
+            return recv.decode(k, formatter=farg) if enc == "D" else recv.decode(k, enc, farg)
+        if call == "c":
+            return recv.decode_contents(k, formatter=farg) if enc == "D" else recv.decode_contents(k, enc, farg)
+        if call == "e":
+            return recv.encode(indent_level=k, formatter=farg) if enc == "D" else recv.encode(enc, k, farg)
+        if call == "ec":
+            return recv.encode_contents(k, formatter=farg) if enc == "D" else recv.encode_contents(k, enc, farg)
+    raise KeyError(call)
+
+
+def raw_section(ctx, soup, recipe, stream, r, spec, farg, fmt, unit, grecvs, idmap, requests, nrecv):
+    e = E()
+    BS = e["BeautifulSoup"]
+    vcp = fmt.void_element_close_prefix or ""
+    encs = [None] + r.sample(ENCODINGS, 2) + [r.choice(PY_SPECIFIC)]
+    sets = {}
+    toks, ok = raw_tokens(ctx, soup, fmt, idmap, sets, encs, vcp)
+    if not ok:
+        report(ctx, "a piece is not assembled as '<' prefix name attrs '/' '>' / PREFIX body SUFFIX", case={"recipe": recipe, "formatter": spec},
+               stream=stream + "-raw", no_failing_input=True)
+        return
+    unit_ws = unit.strip() == ""
+    # receivers: the soup, empty-element tags, tags with a <meta> below, then a sample
+    def prio(t):
+        if t is soup:
+            return 0
+        if not t.contents and t.can_be_empty_element is True:
+            return 1
+        if t.name == "meta" or t.find("meta") is not None:
+            return 2
+        return 3
+    order = sorted(grecvs, key=lambda t: (prio(t), idmap[id(t)]))
+    chosen = order[:max(2, nrecv // 2)] + r.sample(order[max(2, nrecv // 2):], min(len(order) - min(len(order), max(2, nrecv // 2)), nrecv - nrecv // 2))
+    pcs = {}
+
+    def pieces(en):
+        if en not in pcs:
+            pcs[en] = Pieces(soup, fmt, en)
+        return pcs[en]
+    queries, reals, metas = [], [], []
+    for recv in chosen:
+        is_soup = isinstance(recv, BS)
+        kinds = [("p", 0, "D"), ("p", 0, r.choice(encs[1:3])), ("d", None, "D"), ("d", r.choice([0, 1, 2, True, False]), r.choice(encs)),
+                 ("c", r.choice([None, 0, 1]), r.choice(["D"] + encs)), ("e", r.choice([None, 0, 1]), r.choice(["D"] + encs[1:3])),
+                 ("ec", r.choice([None, 0, 2]), r.choice(["D"] + encs[1:3])), ("d", r.choice([None, 0]), None)]
+        plain_by = {}
+        for call, k, en in kinds:
+            try:
+                real = do_raw_call(recv, call, k, en, farg)
+            except (UnicodeError, LookupError) as ex:
+                ctx.count("raw:codec-error:" + type(ex).__name__)
+                continue
+            eff_enc = "utf-8" if en == "D" else en       # the property: omitted encoding arguments mean UTF-8 for the text
+            if call == "p" and en == "D":
+                eff_enc = "utf-8"
+            lk = k
+            if is_soup and isinstance(k, bool):
+                lk = 0 if k else None                     # documented pre-4.13 meaning kept by BeautifulSoup.decode
+            queries.append(f"{path_of(recv, soup)}/{call}/{'T' if k is True else 'F' if k is False else lvl_tok(k)}/"
+                           f"{'D' if en == 'D' else enc_tok(en)}")
+            reals.append(real)
+            metas.append((path_of(recv, soup), [call, k if not isinstance(k, bool) else str(k), en]))
+            ctx.count(f"raw:call:{call}:{'bytes' if isinstance(real, bytes) else 'str'}")
+            ctx.count("raw:recv:" + ("xml-soup" if is_soup and recv.is_xml else "soup" if is_soup else
+                                     "void" if (not recv.contents and recv.can_be_empty_element is True) else "tag"))
+            # ---------------- direct oracle ----------------
+            co = call in ("c", "ec")
+            decl = prop_xml_decl(eff_enc) if (is_soup and recv.is_xml) else ""
+            case = {"recipe": recipe, "receiver": path_of(recv, soup), "formatter": spec, "rawcall": [call, str(k) if isinstance(k, bool) else k, en]}
+            pc = pieces(eff_enc)
+            level = 0 if call == "p" else lk
+            if isinstance(level, bool):
+                level = 0                                 # Tag.decode: True means level 0, False is the int 0
+            if level is None:
+                want = None
+            else:
+                body, flags = demanded_text(recv, pc, fmt, unit, int(level), co)
+                want = None if flags.get("hidden_pre") else decl + body
+            text = real
+            if isinstance(real, bytes):
+                if want is not None:
+                    want_b = want.encode(eff_enc, "xmlcharrefreplace")
+                    if real != want_b:
+                        report(ctx, "bytes flavour: output is not the encoded 'one item per line at unit x depth' text", case=case,
+                               expected=repr(want_b), observed=repr(real), stream=stream + "-raw")
+                try:
+                    text = real.decode(eff_enc)
+                except UnicodeError:
+                    text = None
+            elif want is not None and real != want:
+                report(ctx, "pretty output (encoding / receiver grid) is not 'one item per line at unit x depth, whitespace-preserving "
+                       "elements verbatim" + (", XML declaration first'" if decl else "'"), case=case, expected=want, observed=real,
+                       stream=stream + "-raw")
+            # non-whitespace equality is a statement about the text handed to the codec (a whitespace character the target
+            # encoding lacks becomes a character reference in the bytes): str results only, bytes are tied to text above
+            if text is not None and call in ("p", "d") and not isinstance(real, bytes):
+                if level is None:
+                    plain_by[eff_enc] = text
+                elif unit_ws:
+                    pl = plain_by.get(eff_enc)
+                    if pl is None:
+                        # the plain rendering for the same eventual encoding
+                        pl = decl + E()["Tag"].decode(recv, None, eff_enc, fmt)
+                    if dropws(text) != dropws(pl):
+                        report(ctx, "pretty and plain output for the same encoding differ in non-whitespace characters", case=case,
+                               expected=dropws(pl), observed=dropws(text), stream=stream + "-raw")
+                    ctx.count("raw:oracle:nonws")
+                if text != "" and level is not None and want is not None and not text.endswith("\n"):
+                    report(ctx, "pretty output does not end with a newline", case=case, observed=text[-20:], stream=stream + "-raw")
+            ctx.case(("R", hash((real, tuple(spec[:2]), call, str(k), str(en)))) if len(real) > 0 else None)
+    if not queries:
+        return
+    head = f"{tok(unit)} {tok(vcp)} {sets_token(sets)} {len(queries)} " + " ".join(queries) + " " + " ".join(toks)
+    for mode in ("impl", "spec"):
+        requests.append({"kind": "raw-" + mode, "line": f"c14 raw {mode} " + head, "real": reals, "recipe": recipe, "formatter": spec,
+                         "metas": metas, "stream": stream})
 
 
 def gen_recipe(r, stream):
@@ -876,6 +1089,10 @@ def gen_recipe(r, stream):
 
 
 FIXED = [
+    {"kind": "html", "markup": '<html><head><meta charset="iso-8859-1"><meta http-equiv="Content-Type" content="text/html; charset=koi8-r"></head>'
+                               "<body><br><pre> a </pre></body></html>", "builder": "default", "edits": []},
+    {"kind": "xml", "markup": '<root><meta charset="big5"/><a/> t </root>', "builder": "xmlish", "edits": []},
+    {"kind": "html", "markup": "<br><img alt=' x '><input disabled><hr/>", "builder": "default", "edits": [["clear", 2]]},
     # the five literal snippets style + corner cases named in the property
     {"kind": "html", "markup": "<div><p>a <b>x</b></p><pre> x <b> y </b>\n</pre><br/>  </div>", "builder": "default", "edits": []},
     {"kind": "html", "markup": "<pre><pre> in </pre> out </pre>", "builder": "default", "edits": []},
@@ -997,7 +1214,21 @@ def run(ctx: Ctx):
     replies = drv.ask(lines)
     for q, rp in zip(requests, replies):
         got = rp.split(" | ") if rp != "" else [""]
-        want = q["real"] if q["kind"] == "ev" else [show(x) for x in q["real"]]
+        if q["kind"].startswith("raw-"):
+            # a bytes result comes back as b:<enc>:<text>; the codec step (not modelled) is applied here
+            want = []
+            for x, g in zip(q["real"], got):
+                if isinstance(x, bytes):
+                    m = g.split(":")
+                    try:
+                        ok = len(m) == 3 and m[0] == "b" and unshow(m[2]).encode(unshow(m[1]), "xmlcharrefreplace") == x
+                    except (UnicodeError, LookupError, ValueError):
+                        ok = False
+                    want.append(g if ok else "bytes:" + repr(x)[:300])
+                else:
+                    want.append(show(x))
+        else:
+            want = q["real"] if q["kind"] == "ev" else [show(x) for x in q["real"]]
         ctx.count(f"model:{q['kind']}:queries", len(want))
         if got == want:
             continue
@@ -1013,7 +1244,8 @@ def run(ctx: Ctx):
                 # the oracle above already judged this output; a disagreement with the model alone is reported without a failing input
                 already = any(v["case"].get("recipe") == q["recipe"] and not v.get("no_failing_input_found") for v in ctx.violations)
                 report(ctx, f"model ({q['kind']}) and implementation disagree", case=case,
-                              observed=a if q["kind"] == "ev" else unshow(a), model=b if q["kind"] == "ev" else unshow(b),
+                              observed=a if (q["kind"] == "ev" or ":" in a) else unshow(a),
+                              model=b if (q["kind"] == "ev" or ":" in b or "-" in b) else unshow(b),
                               stream=q["stream"] + "-model", no_failing_input=not already)
                 break
     ctx.count("model:requests", len(lines))
